@@ -103,6 +103,12 @@ impl World for World14 {
         }
         None
     }
+    fn on_watchdog(&self, desc: &str) -> Option<(String, String)> {
+        Some((
+            format!("C14/strand/blocked/initial={},max={}", self.initial, self.max),
+            format!("a pool thread is blocked in something other than the job queue or its job (it never reached its next program point): {}", desc),
+        ))
+    }
     fn abstract_state(&self, st: &St) -> String {
         let o = self.obs.lock().unwrap();
         let mut workers: Vec<String> = vec![];
@@ -655,15 +661,55 @@ fn c06l_specs(_thorough: bool) -> Vec<(String, ListenSpec)> {
     v
 }
 
+/// wide family: many malformed messages (long, with multi-byte characters at every offset) through
+/// listen(), default schedule only - the point is the input, not the interleaving
+fn c06w_specs(thorough: bool) -> Vec<(String, ListenSpec)> {
+    let mut v = vec![];
+    let long_tok: String = "é€x".repeat(if thorough { 40 } else { 24 });
+    let base = req(Kind::Echo, Flag::None, &long_tok);
+    let mut mutants: Vec<(String, Vec<u8>)> = vec![];
+    let step = if thorough { 1 } else { 1 };
+    let mut pos = 0;
+    while pos < base.len() - 1 {
+        let mut m = base.clone();
+        m[pos] ^= 0x80;
+        mutants.push((format!("flip80@{}", pos), m));
+        let mut m = base.clone();
+        m.insert(pos, 0xff);
+        mutants.push((format!("ff@{}", pos), m));
+        if pos % 3 == 0 {
+            let mut m = base[..pos].to_vec();
+            m.push(0);
+            mutants.push((format!("cut@{}", pos), m));
+            // garbage prefix of varying length in front of an intact message (shifts every offset)
+            let mut m: Vec<u8> = std::iter::repeat(b'#').take(pos % 70).collect();
+            m.extend_from_slice(&base);
+            mutants.push((format!("shift@{}", pos), m));
+        }
+        pos += step;
+    }
+    for (n, m) in mutants {
+        let a = ConnSpec { chunks: vec![m], closes: false, healthy: false, name: n.clone(), after_ticks: 0, close_after_ticks: 0 };
+        v.push((format!("wide-{}", n), lspec("C06", Mode::Independent, 1, 3, 0, false, vec![a, healthy("B", 0)])));
+    }
+    v
+}
+
 fn c06l(args: &Args) -> ! {
-    let mut rep = Report::new("C06", "neighbour clause through the real listen(): a connection carrying each of 8 representative malformed streams beside a healthy pipelined connection and a later third connection, every interleaving within the deviation bound (quick 1, thorough 2); oracle: the healthy connections receive byte-for-byte their solo reply streams, no thread panics; non-trivial = distinct complete executions");
+    let mut rep = Report::new("C06", "neighbour clause through the real listen(): a connection carrying each of 8 representative malformed streams beside a healthy pipelined connection and a later third connection, every interleaving within the deviation bound (quick 1, thorough 2); plus a wide family (default schedule only): a long request with multi-byte characters at every offset, corrupted at every byte position (bit 0x80 flipped, 0xFF inserted, cut, shifted by a garbage prefix), beside a healthy connection; oracle: the healthy connections receive byte-for-byte their solo reply streams, no thread panics; non-trivial = distinct complete executions");
     install_hooks();
     if args.replay.is_some() {
-        replay_family(args, &mut rep, c06l_specs(true), 3000);
+        let mut all = c06l_specs(true);
+        all.extend(c06w_specs(true));
+        all.extend(c06w_specs(false));
+        replay_family(args, &mut rep, all, 3000);
     }
     let specs = c06l_specs(args.thorough());
     let fc = FamilyCfg { bound: if args.thorough() { 2 } else { 1 }, stateful: false, env_order_free: false, max_execs: if args.thorough() { 20_000 } else { 600 }, horizon: 3000 };
-    run_family(args, &mut rep, specs, &fc, Duration::from_secs(if args.thorough() { 1200 } else { 45 }));
+    run_family(args, &mut rep, specs, &fc, Duration::from_secs(if args.thorough() { 1200 } else { 40 }));
+    let wide = c06w_specs(args.thorough());
+    let fc0 = FamilyCfg { bound: 0, stateful: false, env_order_free: false, max_execs: 4, horizon: 3000 };
+    run_family(args, &mut rep, wide, &fc0, Duration::from_secs(if args.thorough() { 600 } else { 40 }));
     rep.finish(args)
 }
 
